@@ -2,6 +2,7 @@
 //! that the image round-trips to an equal value), so *every* scalar and *every* vector of the proof
 //! — including fields added by future refactors — is enumerated without a hand-written visitor.
 use crate::refmodel::field::*;
+use num_bigint::BigUint;
 use serde::{Deserialize, Serialize};
 use serde_json::Value;
 use swiftness_stark::types::StarkProof;
@@ -266,7 +267,8 @@ pub fn parse_scalar_felt(s: &str) -> Option<Felt> {
 }
 
 /// replacement values for a scalar slot. `which`: 0 random, 1 plus one, 2 minus one, 3 zero,
-/// 4 copy of sibling (caller supplies), 5 single bit flip (integers only)
+/// 4 copy of sibling (caller supplies), 5 single bit flip, 6/7/8 plus 2^32 / 2^64 / 2^128 (values
+/// that alias the original under a narrowing cast)
 pub fn replacement(kind: SlotKind, cur: &Value, which: u8, seed: u64) -> Option<String> {
     match kind {
         SlotKind::Felt => {
@@ -276,6 +278,19 @@ pub fn replacement(kind: SlotKind, cur: &Value, which: u8, seed: u64) -> Option<
                 1 => c + Felt::ONE,
                 2 => c - Felt::ONE,
                 3 => Felt::ZERO,
+                5 => {
+                    let b = prf_u64(seed, 5) % 251;
+                    let bit = BigUint::from(1u8) << b;
+                    let cb = big(&c);
+                    if (&cb >> b) & BigUint::from(1u8) == BigUint::from(1u8) {
+                        felt_big(&(cb - bit))
+                    } else {
+                        c + felt_big(&bit)
+                    }
+                }
+                6 => c + felt_big(&(BigUint::from(1u8) << 32)),
+                7 => c + felt_big(&(BigUint::from(1u8) << 64)),
+                8 => c + felt_big(&(BigUint::from(1u8) << 128)),
                 _ => return None,
             };
             Some(felt_str(&n))
@@ -299,6 +314,8 @@ pub fn replacement(kind: SlotKind, cur: &Value, which: u8, seed: u64) -> Option<
                     let bits = if kind == SlotKind::U8 { 8 } else { 64 };
                     c ^ (1u64 << (prf_u64(seed, 5) % bits))
                 }
+                6 => c.checked_add(1 << 32).filter(|x| *x <= max)?,
+                7 => c.checked_add(1 << 48).filter(|x| *x <= max)?,
                 _ => return None,
             };
             Some(n.to_string())
